@@ -8,6 +8,7 @@ import SqlgrepModel.Drivers.Join
 import SqlgrepModel.Drivers.Lex
 import SqlgrepModel.Drivers.ParseStmt
 import SqlgrepModel.Drivers.ParseExpr
+import SqlgrepModel.Drivers.Pipeline
 /- Line protocol driver: `<kind> <payload…>` per line in, one answer line out. -/
 open Sqlgrep
 
@@ -35,6 +36,7 @@ def dispatch (line : String) : String :=
     | "pstmt" => Drivers.ParseStmt.handle args
     | "stmt" => Drivers.ParseStmt.handleStmt args
     | "pexpr" => Drivers.ParseExpr.handle args
+    | "e2e" => Drivers.Pipeline.handle args
     | _ => "unknown-kind"
   | _ => "bad-line"
 
